@@ -386,4 +386,46 @@ theorem cleanGenParam_not_panic (gen : Name) : ∀ p, cleanGenParam gen ≠ .pan
     intro h; cases h
 
 
+
+/-! ### The command line -/
+
+theorem cliLoop_exit_zero_iff (fs : List FileVerdict) (n : Nat) :
+    (cliLoop fs n).exit = 0 ↔ ∀ f ∈ fs, f = .valid := by
+  induction fs generalizing n with
+  | nil => simp [cliLoop]
+  | cons f fs ih =>
+    cases f with
+    | valid => simp [cliLoop, ih]
+    | invalid => simp [cliLoop]
+
+theorem cliLoop_all_valid (fs : List FileVerdict) (n : Nat) (h : ∀ f ∈ fs, f = .valid) :
+    cliLoop fs n = { exit := 0, compiled := n + fs.length } := by
+  induction fs generalizing n with
+  | nil => simp [cliLoop]
+  | cons f fs ih =>
+    have hf : f = .valid := h f List.mem_cons_self
+    subst hf
+    simp only [cliLoop, List.length_cons]
+    rw [ih (n + 1) (fun g hg => h g (List.mem_cons_of_mem _ hg))]
+    congr 1
+    omega
+
+theorem cliLoop_first_invalid (pre post : List FileVerdict) (n : Nat) (h : ∀ f ∈ pre, f = .valid) :
+    cliLoop (pre ++ .invalid :: post) n = { exit := 1, compiled := n + pre.length + 1 } := by
+  induction pre generalizing n with
+  | nil => simp [cliLoop]
+  | cons f fs ih =>
+    have hf : f = .valid := h f List.mem_cons_self
+    subst hf
+    simp only [List.cons_append, cliLoop, List.length_cons]
+    rw [ih (n + 1) (fun g hg => h g (List.mem_cons_of_mem _ hg))]
+    congr 1
+    omega
+
+theorem cliLoop_exit_le_one (fs : List FileVerdict) (n : Nat) : (cliLoop fs n).exit = 0 ∨ (cliLoop fs n).exit = 1 := by
+  induction fs generalizing n with
+  | nil => simp [cliLoop]
+  | cons f fs ih => cases f <;> simp [cliLoop, ih]
+
+
 end FV.Compile
